@@ -19,7 +19,8 @@ const (
 type IP6 []byte
 
 func (p IP6) IsValid() error {
-	if len(p) >= IP6HeaderLen && int(p.PayloadLen()+IP6HeaderLen) == len(p) {
+	// what follows the payload is ethernet padding (frames below the 60 byte minimum), as for IP4 and TotalLen
+	if len(p) >= IP6HeaderLen && int(p.PayloadLen())+IP6HeaderLen <= len(p) {
 		return nil
 	}
 	return fmt.Errorf("invalid ipv6 len=%d: %w", len(p), ErrFrameLen)
